@@ -34,11 +34,11 @@ def ofPErr (toks : List PTok) (e : BP.PErr) (idx : Option Nat) : Outcome :=
   | .crashIndex => .crash 1
   | .crashAssert => .crash 2
 
-/-- `Licensing.parse(text, validate, strict, simple)` for a `str` argument -/
-def parseFull (c : Cls) (T : Table) (simple strict validate : Bool) (text : Str) : Outcome :=
+/-- `Licensing.parse(text, validate, strict, simple)` for a `str` argument, with the cached automaton `tr` -/
+def parseFullW (c : Cls) (T : Table) (tr : Trie TVal) (simple strict validate : Bool) (text : Str) : Outcome :=
   if text.isEmpty || isBlank c text then .blank
   else
-    match ltok c T simple strict text with
+    match ltokW c T tr simple strict text with
     | .error e => ofLErr e
     | .ok toks =>
       match BP.parseAt (toks.map (·.t)) with
@@ -48,6 +48,10 @@ def parseFull (c : Cls) (T : Table) (simple strict validate : Bool) (text : Str)
           let ks := unknownKeys (knownKeys T) e true
           if ks.isEmpty then .ok e else .exprErr (some ks)
         else .ok e
+
+/-- `Licensing.parse` on a Licensing whose automaton is built from its own table -/
+def parseFull (c : Cls) (T : Table) (simple strict validate : Bool) (text : Str) : Outcome :=
+  parseFullW c T (buildTrie c T) simple strict validate text
 
 /-- the report of `Licensing.validate` -/
 structure Info where
@@ -62,15 +66,15 @@ inductive VOutcome where
 deriving Repr
 
 /-- `Licensing.validate(text, strict)` for a non-blank `str` argument -/
-def validateFull (c : Cls) (T : Table) (strict : Bool) (text : Str) : VOutcome :=
-  match parseFull c T false strict false text with
+def validateFullW (c : Cls) (T : Table) (tr : Trie TVal) (strict : Bool) (text : Str) : VOutcome :=
+  match parseFullW c T tr false strict false text with
   | .blank => .crash 3                       -- `validate_license_keys(None)` is outside the claim
   | .crash k => .crash k
   | .exprErr _ => .info ⟨none, 1, []⟩
   | .parseErr _ s _ => .info ⟨none, 1, if s.isEmpty then [] else [s]⟩
   | .ok e =>
     -- `validate_license_keys(expression)` parses the *string* again, non-strictly
-    match parseFull c T false false false text with
+    match parseFullW c T tr false false false text with
     | .ok e' =>
       let ks := unknownKeys (knownKeys T) e' true
       if ks.isEmpty then .info ⟨some (renderStr e), 0, []⟩
@@ -79,6 +83,9 @@ def validateFull (c : Cls) (T : Table) (strict : Bool) (text : Str) : VOutcome :
     | .parseErr _ _ _ => .crash 4
     | .blank => .crash 3
     | .crash k => .crash k
+
+def validateFull (c : Cls) (T : Table) (strict : Bool) (text : Str) : VOutcome :=
+  validateFullW c T (buildTrie c T) strict text
 
 def ltAtom (a b : Atom) : Bool := a.lt b
 
